@@ -52,8 +52,17 @@ Definition deps_sys : system :=
   [mkComp [mkVar 0 0 IConst; mkVar 1 1 INone] [mkEqn 1001 (EVar 1) (EOp (EVar 0) ECn)];
    mkComp [mkVar 0 0 INone] [mkEqn 1002 (EOp (EVar 0) (EVar 0)) ECn]].
 
-Lemma deps_witness : exists r, analyse deps_sys = Done r /\ valid_type (r_type r) = true /\ wf_deps_complete deps_sys r = false.
-Proof. eexists. split; [vm_compute; reflexivity|]. split; vm_compute; reflexivity. Qed.
+Lemma deps_witness : dependency_fix = false ->
+  exists r, analyse deps_sys = Done r /\ valid_type (r_type r) = true /\ wf_deps_complete deps_sys r = false.
+Proof.
+  intro H. first [ discriminate H | solve [eexists; split; [vm_compute; reflexivity|]; split; vm_compute; reflexivity] ].
+Qed.
+
+(* with fixes/C05-dependency-retarget.diff (dependency_fix = true) the same system is well formed *)
+Lemma deps_witness_fixed : dependency_fix = true -> exists r, analyse deps_sys = Done r /\ wf deps_sys r = true.
+Proof.
+  intro H. first [ discriminate H | solve [eexists; split; vm_compute; reflexivity] ].
+Qed.
 
 (* the same two equations in ONE component keep the dependency *)
 Definition deps_sys_one : system :=
